@@ -1,7 +1,7 @@
 import GeoVerif.Lemmas.PyLoops
 import GeoVerif.Lemmas.C04
 import GeoVerif.Generated.Code
-/-! The generated transcriptions of `CalculateRevenue` / `CalculateTotalRevenue` equal the list models — for all arguments. -/
+/-! The generated transcriptions of `CalculateRevenue` and of the in-place cash-flow assembly / payback scan of `Economics.Calculate` equal the list models — for all arguments. -/
 namespace GeoVerif
 open Py
 
@@ -105,7 +105,7 @@ theorem code_revenue_eq (L cy : Nat) (hcy : 1 ≤ cy) (E P : List Rat) :
       rw [hout2 (i + 1) e1, hout2 i e2, revenueSeries_getD, getD_replicate, getD_replicate]
       simp [e1]
 
-/-- the project cash flow of `CalculateTotalRevenue` as a list: equal (negative) CAPEX shares, then revenue − O&M -/
+/-- the project cash flow as a list: equal (negative) CAPEX shares, then revenue − O&M -/
 def totalSeries (L cy : Nat) (capex opex : Rat) (rev : List Rat) : List Rat :=
   List.replicate cy (-1 * (capex / (cy : Rat))) ++ (List.range L).map (fun i => rev.getD (cy + i) 0 - opex)
 
@@ -122,56 +122,61 @@ theorem totalSeries_getD (L cy : Nat) (capex opex : Rat) (rev : List Rat) (j : N
     · have h3 : ¬ (j - cy < L) := by omega
       simp [List.getD_eq_getElem?_getD, List.getElem?_append_right, Nat.le_of_not_lt h1, h3, h2, h1]
 
-theorem code_total_revenue_eq (L cy : Nat) (hcy : 1 ≤ cy) (capex opex : Rat) (rev : List Rat) :
-    Code.CalculateTotalRevenue (L : Int) (cy : Int) capex opex rev =
+/-- **the project cash flow as `Economics.Calculate` assembles it in place** (the statements from `ProjectCAPEXPerConstructionYear = …` to the
+cumulative loop, transcribed from the current source): on lists of the full length `L + cy` it yields `totalSeries` — CAPEX shares, then
+revenue − O&M — and its running sum, whatever the cumulative list held before. -/
+theorem code_cashflow_fragment_eq (L cy : Nat) (hcy : 1 ≤ cy) (capex opex : Rat) (rev cum0 : List Rat)
+    (hr : rev.length = L + cy) (hc : cum0.length = L + cy) :
+    Code.CashFlowFragment rev cum0 capex opex (cy : Int) (L : Int) =
       (totalSeries L cy capex opex rev, cumsum (totalSeries L cy capex opex rev)) := by
-  unfold Code.CalculateTotalRevenue
-  have erep : Py.replicate ((L : Int) + (cy : Int)) 0 = List.replicate (L + cy) 0 := by
-    rw [← Nat.cast_add, replicate_nat]
-  simp only [erep, Int.cast_natCast]
-  -- construction years: both lists get the CAPEX share
+  unfold Code.CashFlowFragment
+  simp only [Int.cast_natCast]
   rw [foldl_pair
-    (fun (CashFlow : List Rat) (i : Int) => Py.set CashFlow i ((-(1 : Rat)) * (capex / (cy : Rat))))
-    (fun (CummCashFlow : List Rat) (i : Int) => Py.set CummCashFlow i ((-(1 : Rat)) * (capex / (cy : Rat))))]
+    (fun (TotalRevenue : List Rat) (i : Int) => Py.set TotalRevenue i ((-(1 : Rat)) * (capex / (cy : Rat))))
+    (fun (TotalCummRevenue : List Rat) (i : Int) => Py.set TotalCummRevenue i ((-(1 : Rat)) * (capex / (cy : Rat))))]
   simp only
   obtain ⟨hlA, hinA, houtA⟩ := foldl_rec0 cy (fun _ _ => (-(1 : Rat)) * (capex / (cy : Rat)))
-    (fun (CashFlow : List Rat) (i : Int) => Py.set CashFlow i ((-(1 : Rat)) * (capex / (cy : Rat))))
-    (List.replicate (L + cy) 0) (by simp) (by intros; rfl) (by intro xs k _ _; simp only [set_nat])
+    (fun (xs : List Rat) (i : Int) => Py.set xs i ((-(1 : Rat)) * (capex / (cy : Rat))))
+    rev (by omega) (by intros; rfl) (by intro xs k _ _; simp only [set_nat])
+  obtain ⟨hlU, hinU, houtU⟩ := foldl_rec0 cy (fun _ _ => (-(1 : Rat)) * (capex / (cy : Rat)))
+    (fun (xs : List Rat) (i : Int) => Py.set xs i ((-(1 : Rat)) * (capex / (cy : Rat))))
+    cum0 (by omega) (by intros; rfl) (by intro xs k _ _; simp only [set_nat])
   generalize hA : (Py.range (0 : Int) (cy : Int)).foldl
-    (fun (CashFlow : List Rat) (i : Int) => Py.set CashFlow i ((-(1 : Rat)) * (capex / (cy : Rat))))
-    (List.replicate (L + cy) 0) = A at hlA hinA houtA ⊢
-  have hlA' : A.length = L + cy := by simpa using hlA
-  -- operating years of the cash flow
+    (fun (xs : List Rat) (i : Int) => Py.set xs i ((-(1 : Rat)) * (capex / (cy : Rat)))) rev = A at hlA hinA houtA ⊢
+  generalize hU : (Py.range (0 : Int) (cy : Int)).foldl
+    (fun (xs : List Rat) (i : Int) => Py.set xs i ((-(1 : Rat)) * (capex / (cy : Rat)))) cum0 = U at hlU hinU houtU ⊢
+  have hlA' : A.length = L + cy := by rw [hlA, hr]
+  have hlU' : U.length = L + cy := by rw [hlU, hc]
   have ecomm : (L : Int) + (cy : Int) = (cy : Int) + (L : Int) := by ring
   rw [ecomm]
-  obtain ⟨hlB, hinB, houtB⟩ := foldl_rec cy L (fun j _ => rev.getD j 0 - opex)
-    (fun (CashFlow : List Rat) (i : Int) =>
-      let CashFlow := Py.set CashFlow i ((Py.get rev i) - opex)
-      CashFlow)
-    A (by omega) (by intros; rfl) (by intro xs k _ _; simp only [set_add, get_add])
+  -- O&M off the operating years, in place
+  obtain ⟨hlB, hinB, houtB⟩ := foldl_upd cy L (fun _ old => old - opex)
+    (fun (TotalRevenue : List Rat) (i : Int) =>
+      let TotalRevenue := Py.set TotalRevenue i ((Py.get TotalRevenue i) - opex)
+      TotalRevenue)
+    A (by omega) (by intro xs k _ _; simp only [set_add, get_add])
   have hcf : (Py.range (cy : Int) ((cy : Int) + (L : Int))).foldl
-      (fun (CashFlow : List Rat) (i : Int) =>
-        let CashFlow := Py.set CashFlow i ((Py.get rev i) - opex)
-        CashFlow) A = totalSeries L cy capex opex rev := by
+      (fun (TotalRevenue : List Rat) (i : Int) =>
+        let TotalRevenue := Py.set TotalRevenue i ((Py.get TotalRevenue i) - opex)
+        TotalRevenue) A = totalSeries L cy capex opex rev := by
     apply ext_getD
     · rw [hlB, hlA']; simp [totalSeries]; omega
-    · intro j _
+    · intro j hj
+      rw [hlB, hlA'] at hj
       rw [totalSeries_getD]
       by_cases h1 : j < cy
       · rw [houtB j (by omega), hinA j h1]; simp [h1]
-      · by_cases h2 : j < cy + L
-        · rw [hinB j (by omega) h2]; simp [h1, h2]
-        · rw [houtB j (by omega), houtA j (by omega), getD_replicate]; simp [h1, h2]
+      · have h2 : j < cy + L := by omega
+        rw [hinB j (by omega) h2, houtA j (by omega)]; simp [h1, h2]
   simp only [hcf]
-  -- the running sum from index 1
   have e1 : (cy : Int) + (L : Int) = (1 : Int) + ((L + cy - 1 : Nat) : Int) := by omega
   rw [e1]
   obtain ⟨hlC, hinC, houtC⟩ := foldl_rec 1 (L + cy - 1)
     (fun j prev => if j = 0 then 0 else prev + (totalSeries L cy capex opex rev).getD j 0)
-    (fun (CummCashFlow : List Rat) (i : Int) =>
-      let CummCashFlow := Py.set CummCashFlow i ((Py.get CummCashFlow (i - (1 : Int))) + (Py.get (totalSeries L cy capex opex rev) i))
-      CummCashFlow)
-    A (by omega) (by intros; simp) (by
+    (fun (TotalCummRevenue : List Rat) (i : Int) =>
+      let TotalCummRevenue := Py.set TotalCummRevenue i ((Py.get TotalCummRevenue (i - (1 : Int))) + (Py.get (totalSeries L cy capex opex rev) i))
+      TotalCummRevenue)
+    U (by omega) (by intros; simp) (by
       intro xs k _ _
       have h1 : 1 ≤ 1 + k := by omega
       have h0 : 1 + k ≠ 0 := by omega
@@ -180,19 +185,14 @@ theorem code_total_revenue_eq (L cy : Nat) (hcy : 1 ≤ cy) (capex opex : Rat) (
   congr 1
   have hlen : (totalSeries L cy capex opex rev).length = cy + L := by simp [totalSeries]
   apply cumsum_unique
-  · rw [hlC, hlA', hlen]; omega
+  · rw [hlC, hlU', hlen]; omega
   · intro _
-    rw [houtC 0 (by omega), hinA 0 (by omega), totalSeries_getD]
+    rw [houtC 0 (by omega), hinU 0 (by omega), totalSeries_getD]
     simp [show 0 < cy by omega]
   · intro i hi
     rw [hlen] at hi
     rw [hinC (i + 1) (by omega) (by omega)]
     simp
-
-end GeoVerif
-
-namespace GeoVerif
-open Py
 
 theorem fabs_of_nonpos (q : Rat) (h : q ≤ 0) : Py.fabs q = -q := by
   unfold Py.fabs
